@@ -172,6 +172,10 @@ def run(ctx, proof):
             grammars.append((os.path.basename(p), f.read()))
     for i in range(ngram):
         grammars.append((f"big{i}", big_grammar(rng, i)))
+    # hundreds of distinct within-word automata of one shape (sizes past any plausible batching threshold)
+    for nopt in ([300, 700] if ctx.thorough() else [rng.choice([290, 330, 520])]):
+        grammars.append((f"many{nopt}", "big [<OPTION>]... <FILE>;\n<OPTION> = " +
+                         " | ".join(f"--opt{j:03d}=<VALUE>" for j in range(nopt)) + ";\n<VALUE> = {{{ echo v1; echo v2 }}};\n<FILE> = {{{ ls }}};\n"))
     shapes = pool_shapes(rng, 120 if ctx.thorough() else 24)
     grammars += shapes[:8 if ctx.thorough() else 3]
     # deterministic half first: pool entries that compare equal
